@@ -7,39 +7,57 @@ ROOT = os.path.dirname(os.path.dirname(os.path.abspath(__file__)))
 L = os.path.join(ROOT, "lean")
 
 def mods_theorems(mods):
+    """mods: module names or (module, regex) pairs; the regex selects theorem base names"""
+    import re
     ms, ts = [], []
     for m in mods:
+        rx = None
+        if isinstance(m, tuple):
+            m, rx = m
         p = os.path.join(L, m.replace(".", "/") + ".lean")
         if os.path.exists(p):
-            ms.append(m)
-            ts += theorems(p)
+            if m not in ms:
+                ms.append(m)
+            for t in theorems(p):
+                if rx is None or re.search(rx, t.split(".")[-1]):
+                    if t not in ts:
+                        ts.append(t)
     return ms, ts
 
 def have_proto(kind):
     return os.path.exists(os.path.join(L, "OxiddModel", kind.capitalize(), "Driver.lean")) and \
         ('("%s"' % kind) in open(os.path.join(L, "Main.lean")).read()
 
+# (kind, suite) pairs on which the kind's Lean driver has been validated byte for byte
+VALIDATED = {"bdd": None,  # all suites
+             "bcdd": None,
+             "zbdd": {"c02", "c04", "c09", "c12", "c13", "c08"}}
+
 def bf_streams(suite, kinds):
     out = []
     for k in kinds:
         s = {"name": f"{k}-{suite}", "bin": "bf", "gen": {"quick": ["--kind", k, "--suite", suite], "thorough": ["--kind", k, "--suite", suite]},
              "run_args": ["--kind", k]}
-        if have_proto(k):
+        if have_proto(k) and (VALIDATED.get(k) is None or suite in VALIDATED[k]):
             s["proto"] = k
         out.append(s)
     return out
 
+B = "OxiddModel.Bcdd.Properties"
+Z = "OxiddModel.Zbdd.Properties"
 SPEC = {
- "C01": (["OxiddModel.Bdd.Properties", "OxiddModel.Bcdd.PropertiesC01", "OxiddModel.Zbdd.PropertiesC01"], [("c01", ["bdd", "bcdd", "zbdd"])]),
- "C02": (["OxiddModel.Bdd.Properties", "OxiddModel.Bcdd.Properties", "OxiddModel.Zbdd.Properties"], [("c02", ["bdd", "bcdd", "zbdd"])]),
- "C03": (["OxiddModel.Bdd.Properties", "OxiddModel.Bdd.PropertiesC12"], [("c03", ["bdd", "bcdd", "zbdd"])]),
- "C04": (["OxiddModel.Bdd.PropertiesC04", "OxiddModel.Bcdd.PropertiesC04"], [("c04", ["bdd", "bcdd", "zbdd"])]),
+ "C01": (["OxiddModel.Bdd.Properties", (B, r"canonical|unique|sat_valid"), (Z, r"canonical|unique|sat_valid")], [("c01", ["bdd", "bcdd", "zbdd"])]),
+ "C02": (["OxiddModel.Bdd.Properties", (B, r"not_sem|apply|Bin_sem|op_sem|ite|const_var|eval_sem|cofactors|var_nf"),
+          (Z, r"zbdd_not|zbdd_apply|op_sem|zbdd_ite|zbdd_var|zbdd_cofactors|bool_view")], [("c02", ["bdd", "bcdd", "zbdd"])]),
+ "C03": (["OxiddModel.Bdd.Properties", "OxiddModel.Bdd.PropertiesC12", (B, r"_nf$|reduce"), (Z, r"_nf|nf'")], [("c03", ["bdd", "bcdd", "zbdd"])]),
+ "C04": (["OxiddModel.Bdd.PropertiesC04", (B, r"quant|restrict|applyQuant|dispatch|subst|varset|cube_sem|qsem"), (Z, r"restrict")], [("c04", ["bdd", "bcdd", "zbdd"])]),
  "C05": (["OxiddModel.Bdd.PropertiesC05"], [("c05", ["bdd", "bcdd", "zbdd"])]),
  "C06": (["OxiddModel.Bdd.PropertiesC06"], [("c06", ["bdd", "bcdd", "zbdd"])]),
+ "C07": (["OxiddModel.Bdd.PropertiesC07"], [("c07", ["bdd", "bcdd", "zbdd"])]),
  "C08": (["OxiddModel.Reorder.Properties"], [("c08", ["bdd", "bcdd", "zbdd"])]),
- "C09": (["OxiddModel.Zbdd.PropertiesC09"], [("c09", ["zbdd"])]),
+ "C09": ([(Z, r"family|union|intsec|diff|subset|change|makeNode|bool_view|add_vars|taut|setops|const_nf")], [("c09", ["zbdd"])]),
+ "C13": (["OxiddModel.Bdd.PropertiesC13", (B, r"pick|choice|literal"), (Z, r"pick")], [("c13", ["bdd", "bcdd", "zbdd"])]),
  "C14": (["OxiddModel.Bdd.PropertiesC14"], [("c14", ["bdd", "bcdd", "zbdd"])]),
- "C13": (["OxiddModel.Bdd.PropertiesC13", "OxiddModel.Bcdd.PropertiesC13", "OxiddModel.Zbdd.PropertiesC13"], [("c13", ["bdd", "bcdd", "zbdd"])]),
 }
 for pid, (mods, suites) in SPEC.items():
     p = os.path.join(ROOT, "checks", pid + ".json")
